@@ -208,18 +208,27 @@ func (a simAddr) String() string  { return string(a) }
 
 // connEnd is one end of an in-memory net.Conn.
 type connEnd struct {
-	in, out       *half
-	local, remote simAddr
-	closeOnce     sync.Once
-	closedAt      time.Duration // virtual instant at which this end was closed by its owner
-	isClosed      bool
+	in, out           *half
+	local, remote     simAddr
+	closeOnce         sync.Once
+	preemptibleWrites bool          // server end of a WebSocket connection
+	closedAt          time.Duration // virtual instant at which this end was closed by its owner
+	isClosed          bool
 }
 
 func (e *connEnd) Read(b []byte) (int, error) {
 	n, err := e.in.read(b)
 	return n, err
 }
-func (e *connEnd) Write(b []byte) (int, error) { return e.out.write(b) }
+func (e *connEnd) Write(b []byte) (int, error) {
+	n, err := e.out.write(b)
+	// a write to a connection is a system call: the writer can be pre-empted in it (whoever else writes to the same
+	// connection meanwhile finds it in the middle of a write)
+	if e.preemptibleWrites && simrt.IsTask() {
+		simrt.Yield(-5)
+	}
+	return n, err
+}
 func (e *connEnd) Close() error {
 	e.closeOnce.Do(func() {
 		e.closedAt, e.isClosed = simrt.Now(), true
@@ -373,6 +382,9 @@ type ReqSpec struct {
 	Conn    net.Conn // for hijack (websocket)
 	H3      any      // for webtransport
 	Chunk   int      // body read chunking
+	// BodyErrAt > 0: reading the body fails (a malformed chunk header, a limiting wrapper in a middleware) once that
+	// many bytes minus one were handed out - the connection itself stays, the request context is not cancelled
+	BodyErrAt int64
 }
 
 // newRequest builds the *http.Request the way net/http would hand it over.
@@ -403,6 +415,10 @@ func (w *World) newRequest(client string, rs ReqSpec) (*http.Request, *Resp) {
 	}
 	r.BodySize, r.NoCL = n, rs.NoCL
 	if body != nil {
+		if rs.BodyErrAt > 0 {
+			body = &failingReader{r: body, left: rs.BodyErrAt - 1}
+			w.fault("request-body-read-error")
+		}
 		req.Body = &countingBody{r: body, n: &r.BodyRead, chunk: rs.Chunk}
 		req.ContentLength = n
 		if rs.NoCL {
@@ -453,4 +469,25 @@ func (r *Resp) abort() {
 		r.cancel()
 		simrt.Settle()
 	}
+}
+
+// failingReader yields left bytes of r and then an error that is not the end of the body.
+type failingReader struct {
+	r    io.Reader
+	left int64
+}
+
+func (f *failingReader) Read(b []byte) (int, error) {
+	if f.left <= 0 {
+		return 0, errors.New("invalid byte in chunk length")
+	}
+	if int64(len(b)) > f.left {
+		b = b[:f.left]
+	}
+	n, err := f.r.Read(b)
+	f.left -= int64(n)
+	if err == io.EOF && f.left > 0 {
+		return n, errors.New("unexpected EOF in chunked body")
+	}
+	return n, err
 }
